@@ -167,7 +167,7 @@ def gen_cases(tier, seed):
             exprs.append([op] + [k for k in kids])
     n_exh = len(exprs)
     rng = random.Random(seed)
-    nrand = 1500 if tier == "quick" else 12000
+    nrand = 1500 if tier == "quick" else 120000
     g = exprdsl.Gen(rng, vars_num=VARS, consts=(0, 1, 2, -1, 3), funcs=("<func>f", "<func>g"),
                     arrays=("arr",), float_consts=(0.5,),
                     ops=["+", "*", "/", "**", "if", "min", "max", "call", "callkw", "sub", "cmp", "not", "and", "or"])
